@@ -657,7 +657,7 @@ func TestVF_C43(t *testing.T) {
 	defer r.Finish()
 	thorough := r.Thorough()
 	sp := vfc43NewSpace(r.Seed(), thorough)
-	sp.rnd = r.N(60000, 1500000)
+	sp.rnd = r.N(40000, 1500000)
 	total := sp.exh + sp.rnd
 	var bl []string
 	for _, b := range sp.blocks {
